@@ -531,11 +531,15 @@ def program_equivalence(prog1, prog2, compare_params=True, atol=1e-6, rtol=0):
         name_match = n1["name"] == n2["name"]
         wire_match = n1["w"] == n2["w"]
 
+        if not (name_match and wire_match):
+            # different operations: their parameter lists need not even have the same length
+            return False
+
         if compare_params:
             p_match = np.allclose(n1["p"], n2["p"], atol=atol, rtol=rtol)
-            return name_match and p_match and wire_match and n1["m"] == n2["m"]
+            return p_match and n1["m"] == n2["m"]
 
-        return name_match and wire_match
+        return True
 
     # check if circuits are equivalent
     return nx.is_isomorphic(circuit[0], circuit[1], node_match)
